@@ -46,16 +46,25 @@ def pyscf_mf(geom, basis, charge=0, spin=0):
     return mf
 
 
+class ReferenceUndefined(Exception):
+    """The reference calculation itself did not converge: the quantity the identity talks about is not defined."""
+
+
 def energy(geom, method, basis, charge=0, spin=0):
     """Energy of the whole system with `method` in HF / CCSD / FCI, all electrons correlated."""
     from pyscf import cc, fci
     mf = pyscf_mf(geom, basis, charge, spin)
+    if not mf.converged:
+        raise ReferenceUndefined("reference-scf-not-converged")
     if method == "HF":
         return float(mf.e_tot)
     if method == "CCSD":
         c = cc.CCSD(mf)
         c.verbose = 0
+        c.conv_tol, c.conv_tol_normt = 1e-9, 1e-7      # the thresholds Tangelo's CCSD wrapper documents in its source
         c.kernel()
+        if not c.converged:
+            raise ReferenceUndefined("reference-ccsd-not-converged")
         return float(c.e_tot)
     if method == "FCI":
         # same solver class as the definition of "FCI energy" used by the package: spin-adapted (direct_spin0) for
